@@ -175,7 +175,9 @@ class GeneralSymmetricSubstitutionModel(SymmetricSubstitutionModel):
         )
         R[..., indices[0], indices[1]] = self.rates[..., self.mapping.tensor]
         R[..., indices[1], indices[0]] = self.rates[..., self.mapping.tensor]
-        identity = torch.eye(self.state_count)
+        identity = torch.eye(
+            self.state_count, dtype=self.frequencies.dtype, device=self.frequencies.device
+        )
         for _ in range(R.dim() - 2):
             identity = identity.unsqueeze(0)
         pi = self.frequencies.unsqueeze(-1) * identity.repeat(R.shape[:-2] + (1, 1))
@@ -266,7 +268,9 @@ class GeneralNonSymmetricSubstitutionModel(NonSymmetricSubstitutionModel):
         dim = int(self.mapping.shape[-1] / 2)
         R[..., indices[0], indices[1]] = self.rates[..., self.mapping.tensor[:dim]]
         R[..., indices[1], indices[0]] = self.rates[..., self.mapping.tensor[dim:]]
-        identity = torch.eye(self.state_count)
+        identity = torch.eye(
+            self.state_count, dtype=self.frequencies.dtype, device=self.frequencies.device
+        )
         for _ in range(R.dim() - 2):
             identity = identity.unsqueeze(0)
         pi = self.frequencies.unsqueeze(-1) * identity.repeat(R.shape[:-2] + (1, 1))
